@@ -10,9 +10,11 @@ package main
 //     ([N]byte -> 8N, int8 -> 8, ..., named types recursively)
 //   - the number of bits its decoder reads (ReadUint/ReadInt/ReadBytes literals
 //     of UnmarshalTLB, else from the type definition)
-//   - whether the encoder call is WriteInt (two's complement key)
+//   - whether an encoder call is WriteInt (a field in two's complement)
 //   - whether the underlying Go type is a signed integer (Compare uses the
 //     native < of that type)
+// and, separately, the names of the key types whose Compare converts a field to
+// an unsigned integer type before comparing it (uint32(x.Workchain)).
 // No meaning is attached here; Properties/C05_gen.v states the obligations.
 
 import (
@@ -73,7 +75,7 @@ func c05Collect(rels ...string) *c05Types {
 
 // sum of the width literals of calls <recv>.<name>(...) in a body; argIdx is
 // the position of the width argument, mul the bits per unit
-func c05CallWidths(body ast.Node, names map[string][2]int) (total uint64, ok bool, sawInt bool) {
+func c05CallWidths(body ast.Node, names map[string][2]int, sliceBits func(ast.Expr) uint64) (total uint64, ok bool, sawInt bool) {
 	ok = true
 	found := false
 	ast.Inspect(body, func(n ast.Node) bool {
@@ -94,6 +96,14 @@ func c05CallWidths(body ast.Node, names map[string][2]int) (total uint64, ok boo
 			return true
 		}
 		v, isLit := intLit(call.Args[spec[0]])
+		if !isLit && sel.Sel.Name == "WriteBytes" && sliceBits != nil {
+			// WriteBytes(x.Field[:]): all bytes of an array-typed field
+			if w := sliceBits(call.Args[spec[0]]); w > 0 {
+				found = true
+				total += w
+				return true
+			}
+		}
 		if !isLit {
 			ok = false
 			return true
@@ -155,8 +165,28 @@ func (ct *c05Types) codecWidth(name string, enc bool, depth int) (uint64, bool) 
 	m := ct.methods[name]
 	if enc {
 		if fd, ok := m["MarshalTLB"]; ok && fd.Body != nil {
+			// bits of recv.Field[:] where Field is a (named) byte array of the struct
+			sliceBits := func(e ast.Expr) uint64 {
+				sl, ok := e.(*ast.SliceExpr)
+				if !ok || sl.Low != nil || sl.High != nil {
+					return 0
+				}
+				fsel, ok := sl.X.(*ast.SelectorExpr)
+				st, isStruct := ct.specs[name].(*ast.StructType)
+				if !ok || !isStruct {
+					return 0
+				}
+				for _, f := range st.Fields.List {
+					for _, fn := range f.Names {
+						if fn.Name == fsel.Sel.Name {
+							return ct.typeWidth(f.Type, true, depth+1)
+						}
+					}
+				}
+				return 0
+			}
 			w, ok, signed := c05CallWidths(fd.Body, map[string][2]int{"WriteUint": {1, 1}, "WriteInt": {1, 1},
-				"WriteBigUint": {1, 1}, "WriteBigInt": {1, 1}})
+				"WriteBigUint": {1, 1}, "WriteBigInt": {1, 1}, "WriteBytes": {0, 8}}, sliceBits)
 			if !ok {
 				return 0, false
 			}
@@ -165,7 +195,7 @@ func (ct *c05Types) codecWidth(name string, enc bool, depth int) (uint64, bool) 
 	} else {
 		if fd, ok := m["UnmarshalTLB"]; ok && fd.Body != nil {
 			w, ok, _ := c05CallWidths(fd.Body, map[string][2]int{"ReadUint": {0, 1}, "ReadInt": {0, 1},
-				"ReadBigUint": {0, 1}, "ReadBigInt": {0, 1}, "ReadBytes": {0, 8}})
+				"ReadBigUint": {0, 1}, "ReadBigInt": {0, 1}, "ReadBytes": {0, 8}}, nil)
 			if !ok {
 				return 0, false
 			}
@@ -212,6 +242,32 @@ func genC05() {
 			native = true
 		}
 		fmt.Fprintf(&b, "  (%q, (%d, (%d, (%d, (%v, %v)))))%s\n", name, fixed, enc, dec, signed, native, sep)
+	}
+	b.WriteString("].\n\n")
+	b.WriteString("(* key types whose Compare converts a field to an unsigned integer type before comparing it *)\n")
+	b.WriteString("Definition dict_key_compare_casts_unsigned : list string := [")
+	first := true
+	for _, name := range names {
+		casts := false
+		if fd := ct.methods[name]["Compare"]; fd != nil && fd.Body != nil {
+			ast.Inspect(fd.Body, func(n ast.Node) bool {
+				if call, ok := n.(*ast.CallExpr); ok && len(call.Args) == 1 {
+					if id, ok := call.Fun.(*ast.Ident); ok && len(id.Name) > 4 && id.Name[:4] == "uint" {
+						if _, isField := call.Args[0].(*ast.SelectorExpr); isField {
+							casts = true
+						}
+					}
+				}
+				return true
+			})
+		}
+		if casts {
+			if !first {
+				b.WriteString("; ")
+			}
+			first = false
+			fmt.Fprintf(&b, "%q", name)
+		}
 	}
 	b.WriteString("].\n")
 	writeIfChanged(filepath.Join(*out, "DictKeys.v"), b.Bytes())
